@@ -1,1 +1,1095 @@
-fn main() {}
+//! hx-store: implementation executor for C17 (storage backends vs the reference model).
+//!
+//! One case = one backend + one call sequence.  After EVERY call (and once before
+//! the first) all observers of the `Storage` trait are evaluated on all three
+//! keyspaces: `get_keyspace_list`, `iter_metadata`, `get` for every id of the case's
+//! universe, `multi_get` of the universe.  The canonical text of those observations
+//! is written to `store.impl` (the extracted Coq reference prints the same text
+//! when model and backend agree), and the property's own predicate is evaluated on
+//! the backend against a small BTreeMap reference kept inside this executor
+//! (independent of the extracted model): same documents / metadata / keyspace list
+//! (modulo keyspaces without entries), frame rule, reopen changes nothing, no call
+//! fails or panics.  Failures go to `store.fail` with the case truncated after the
+//! failing call.
+//!
+//! Case line:   <backend> u=<id>/<id>/... <op> <op> ...
+//!   backend  mem | sqlm (SQLite :memory:) | sqlf (SQLite file) | lmdb
+//!   p.<ks>.<id>.<ts>.<pay>            put
+//!   P.<ks>.<id>,<ts>,<pay>/...        multi_put (in order; may be empty)
+//!   t.<ks>.<id>.<ts>                  mark_as_tombstone
+//!   T.<ks>.<id>,<ts>/...              mark_many_as_tombstone
+//!   x.<ks>.<id>/...                   remove_tombstones
+//!   r                                 close + reopen (no-op for mem and sqlm)
+//! numbers are lower-case hex; <ks> is an index into KS_NAMES; payload tokens:
+//!   e = empty, b<hh> = one byte, s<hex> = short literal bytes,
+//!   k<seed> = 4 KiB pattern, m<seed> = 1 MiB pattern.
+
+use std::collections::{BTreeMap, BTreeSet, HashMap};
+use std::path::{Path, PathBuf};
+use std::sync::{Arc, Mutex};
+use std::time::{Duration, Instant};
+
+use datacake_crdt::HLCTimestamp;
+use datacake_eventual_consistency::test_utils::MemStore;
+use datacake_eventual_consistency::{Document, DocumentMetadata, Storage};
+use datacake_lmdb::LmdbStorage;
+use datacake_sqlite::SqliteStorage;
+use hxcommon::{hex_bytes, quiet_panics, unhex_bytes, Args, CaseWriter, Rng};
+
+const NKS: usize = 3;
+/// Keyspace names; index 2 is the one the generators like to touch first with a tombstone.
+const KS_NAMES: [&str; NKS] = ["alpha", "beta_2", "gamma-tomb"];
+const BACKENDS: [&str; 4] = ["mem", "sqlm", "sqlf", "lmdb"];
+const BOUNDARY_IDS: [u64; 5] = [0, 1, (1 << 63) - 1, 1 << 63, u64::MAX];
+
+// ------------------------------------------------------------------ cases
+
+#[derive(Clone, Debug)]
+enum Op {
+    Put(usize, u64, u64, String),
+    MultiPut(usize, Vec<(u64, u64, String)>),
+    Tomb(usize, u64, u64),
+    MultiTomb(usize, Vec<(u64, u64)>),
+    Purge(usize, Vec<u64>),
+    Reopen,
+}
+
+impl Op {
+    fn ks(&self) -> Option<usize> {
+        match self {
+            Op::Put(k, ..) | Op::MultiPut(k, ..) | Op::Tomb(k, ..) | Op::MultiTomb(k, ..) | Op::Purge(k, ..) => {
+                Some(*k)
+            },
+            Op::Reopen => None,
+        }
+    }
+    fn show(&self) -> String {
+        match self {
+            Op::Put(k, id, ts, p) => format!("p.{k:x}.{id:x}.{ts:x}.{p}"),
+            Op::MultiPut(k, docs) => format!(
+                "P.{k:x}.{}",
+                docs.iter().map(|(i, t, p)| format!("{i:x},{t:x},{p}")).collect::<Vec<_>>().join("/")
+            ),
+            Op::Tomb(k, id, ts) => format!("t.{k:x}.{id:x}.{ts:x}"),
+            Op::MultiTomb(k, docs) => format!(
+                "T.{k:x}.{}",
+                docs.iter().map(|(i, t)| format!("{i:x},{t:x}")).collect::<Vec<_>>().join("/")
+            ),
+            Op::Purge(k, ids) => {
+                format!("x.{k:x}.{}", ids.iter().map(|i| format!("{i:x}")).collect::<Vec<_>>().join("/"))
+            },
+            Op::Reopen => "r".into(),
+        }
+    }
+    fn parse(tok: &str) -> Option<Op> {
+        let h = |s: &str| u64::from_str_radix(s, 16).ok();
+        let parts: Vec<&str> = tok.split('.').collect();
+        let ks = |s: &str| h(s).map(|k| k as usize).filter(|k| *k < NKS);
+        let items = |s: &str| -> Vec<String> {
+            s.split('/').filter(|x| !x.is_empty()).map(|x| x.to_string()).collect()
+        };
+        match parts.as_slice() {
+            ["r"] => Some(Op::Reopen),
+            ["p", k, id, ts, p] if pay_ok(p) => Some(Op::Put(ks(k)?, h(id)?, h(ts)?, p.to_string())),
+            ["P", k, docs] => {
+                let mut v = Vec::new();
+                for d in items(docs) {
+                    let f: Vec<&str> = d.split(',').collect();
+                    if f.len() != 3 || !pay_ok(f[2]) {
+                        return None;
+                    }
+                    v.push((h(f[0])?, h(f[1])?, f[2].to_string()));
+                }
+                Some(Op::MultiPut(ks(k)?, v))
+            },
+            ["t", k, id, ts] => Some(Op::Tomb(ks(k)?, h(id)?, h(ts)?)),
+            ["T", k, docs] => {
+                let mut v = Vec::new();
+                for d in items(docs) {
+                    let f: Vec<&str> = d.split(',').collect();
+                    if f.len() != 2 {
+                        return None;
+                    }
+                    v.push((h(f[0])?, h(f[1])?));
+                }
+                Some(Op::MultiTomb(ks(k)?, v))
+            },
+            ["x", k, ids] => {
+                let mut v = Vec::new();
+                for d in items(ids) {
+                    v.push(h(&d)?);
+                }
+                Some(Op::Purge(ks(k)?, v))
+            },
+            _ => None,
+        }
+    }
+}
+
+/// fraction byte of a packed stamp above 249: not a stamp `HLCTimestamp::new` can build
+fn noncanonical_stamp(ts: u64) -> bool {
+    (ts >> 24) & 0xff > 249
+}
+
+impl Case {
+    fn has_noncanonical_stamp(&self) -> bool {
+        self.ops.iter().any(|op| match op {
+            Op::Put(_, _, ts, _) | Op::Tomb(_, _, ts) => noncanonical_stamp(*ts),
+            Op::MultiPut(_, docs) => docs.iter().any(|d| noncanonical_stamp(d.1)),
+            Op::MultiTomb(_, docs) => docs.iter().any(|d| noncanonical_stamp(d.1)),
+            _ => false,
+        })
+    }
+}
+
+fn pay_ok(p: &str) -> bool {
+    let b = p.as_bytes();
+    if b.is_empty() || !p.is_ascii() {
+        return false;
+    }
+    let hexrest = p[1..].bytes().all(|c| c.is_ascii_hexdigit());
+    match b[0] {
+        b'e' => p.len() == 1,
+        b'b' => p.len() == 3 && hexrest,
+        b's' => p.len() % 2 == 1 && hexrest,
+        b'k' | b'm' => p.len() >= 2 && p.len() <= 9 && hexrest,
+        _ => false,
+    }
+}
+
+fn pattern(len: usize, seed: u64) -> Vec<u8> {
+    let mut r = Rng::new(seed.wrapping_mul(0x1000_0001).wrapping_add(len as u64));
+    let mut v = Vec::with_capacity(len);
+    // every pattern starts with the awkward bytes
+    v.extend_from_slice(&[0x00, 0xff, 0x00, 0x0a, 0x27, 0x22, 0x80, 0x7f]);
+    while v.len() < len {
+        v.extend_from_slice(&r.next().to_le_bytes());
+    }
+    v.truncate(len);
+    v
+}
+
+fn payload_bytes(tok: &str) -> Vec<u8> {
+    match tok.as_bytes()[0] {
+        b'e' => Vec::new(),
+        b'b' | b's' => unhex_bytes(&tok[1..]),
+        b'k' => pattern(4096, u64::from_str_radix(&tok[1..], 16).unwrap()),
+        _ => pattern(1 << 20, u64::from_str_radix(&tok[1..], 16).unwrap()),
+    }
+}
+
+#[derive(Clone, Debug)]
+struct Case {
+    backend: String,
+    universe: Vec<u64>,
+    ops: Vec<Op>,
+}
+
+impl Case {
+    fn show_prefix(&self, nops: usize) -> String {
+        let mut s = format!(
+            "{} u={}",
+            self.backend,
+            self.universe.iter().map(|i| format!("{i:x}")).collect::<Vec<_>>().join("/")
+        );
+        for op in self.ops.iter().take(nops) {
+            s.push(' ');
+            s.push_str(&op.show());
+        }
+        s
+    }
+    fn show(&self) -> String {
+        self.show_prefix(self.ops.len())
+    }
+    fn parse(line: &str) -> Option<Case> {
+        let mut it = line.split_whitespace();
+        let backend = it.next()?.to_string();
+        if !BACKENDS.contains(&backend.as_str()) {
+            return None;
+        }
+        let u = it.next()?.strip_prefix("u=")?;
+        let mut universe = Vec::new();
+        for x in u.split('/').filter(|x| !x.is_empty()) {
+            universe.push(u64::from_str_radix(x, 16).ok()?);
+        }
+        let mut ops = Vec::new();
+        for tok in it {
+            ops.push(Op::parse(tok)?);
+        }
+        Some(Case { backend, universe, ops })
+    }
+    fn payload_table(&self) -> HashMap<Vec<u8>, String> {
+        let mut t = HashMap::new();
+        let mut add = |p: &String| {
+            t.entry(payload_bytes(p)).or_insert_with(|| p.clone());
+        };
+        for op in &self.ops {
+            match op {
+                Op::Put(_, _, _, p) => add(p),
+                Op::MultiPut(_, docs) => docs.iter().for_each(|(_, _, p)| add(p)),
+                _ => {},
+            }
+        }
+        t
+    }
+}
+
+// ------------------------------------------------------------ the oracle's reference
+
+/// The property's reference, written once more in Rust (independent of the
+/// extracted Coq model): (keyspace, id) -> (stamp, Some(payload token) | None).
+#[derive(Default, Clone)]
+struct Reference {
+    m: BTreeMap<(usize, u64), (u64, Option<String>)>,
+}
+
+impl Reference {
+    fn apply(&mut self, op: &Op) {
+        match op {
+            Op::Put(k, id, ts, p) => {
+                self.m.insert((*k, *id), (*ts, Some(p.clone())));
+            },
+            Op::MultiPut(k, docs) => {
+                for (id, ts, p) in docs {
+                    self.m.insert((*k, *id), (*ts, Some(p.clone())));
+                }
+            },
+            Op::Tomb(k, id, ts) => {
+                self.m.insert((*k, *id), (*ts, None));
+            },
+            Op::MultiTomb(k, docs) => {
+                for (id, ts) in docs {
+                    self.m.insert((*k, *id), (*ts, None));
+                }
+            },
+            Op::Purge(k, ids) => {
+                for id in ids {
+                    self.m.remove(&(*k, *id));
+                }
+            },
+            Op::Reopen => {},
+        }
+    }
+    /// remove_tombstones is allowed by the contract only on tombstones / absent ids
+    fn allowed(&self, op: &Op) -> bool {
+        match op {
+            Op::Purge(k, ids) => {
+                let mut sim = self.clone();
+                for id in ids {
+                    if matches!(sim.m.get(&(*k, *id)), Some((_, Some(_)))) {
+                        return false;
+                    }
+                    sim.m.remove(&(*k, *id));
+                }
+                true
+            },
+            _ => true,
+        }
+    }
+    fn sections(&self, universe: &[u64]) -> Sections {
+        let mut s = Sections::default();
+        let mut nonempty = BTreeSet::new();
+        for ((k, _), _) in &self.m {
+            nonempty.insert(*k);
+        }
+        s.k = join(nonempty.iter().map(|k| format!("{k:x}")).collect());
+        for ks in 0..NKS {
+            let rows: Vec<String> = self
+                .m
+                .range((ks, 0)..=(ks, u64::MAX))
+                .map(|((_, id), (ts, d))| format!("{id:x}:{ts:x}:{}", if d.is_none() { 1 } else { 0 }))
+                .collect();
+            s.m[ks] = join(rows);
+            let mut g = Vec::new();
+            for id in dedup_keep_order(universe) {
+                match self.m.get(&(ks, id)) {
+                    Some((ts, Some(p))) => g.push(format!("{id:x}:{ts:x}:{p}")),
+                    _ => g.push(format!("{id:x}:-")),
+                }
+            }
+            s.g[ks] = join(g);
+            let want: BTreeSet<u64> = universe.iter().copied().collect();
+            let q: Vec<String> = want
+                .iter()
+                .filter_map(|id| match self.m.get(&(ks, *id)) {
+                    Some((ts, Some(p))) => Some(format!("{id:x}:{ts:x}:{p}")),
+                    _ => None,
+                })
+                .collect();
+            s.q[ks] = join(q);
+        }
+        s
+    }
+}
+
+fn join(v: Vec<String>) -> String {
+    if v.is_empty() {
+        "-".into()
+    } else {
+        v.join(",")
+    }
+}
+
+fn dedup_keep_order(u: &[u64]) -> Vec<u64> {
+    let mut seen = BTreeSet::new();
+    u.iter().copied().filter(|x| seen.insert(*x)).collect()
+}
+
+/// Canonical text of one full observation.
+#[derive(Default, Clone, PartialEq)]
+struct Sections {
+    k: String,
+    m: [String; NKS],
+    g: [String; NKS],
+    q: [String; NKS],
+}
+
+impl Sections {
+    fn text(&self, tag: &str) -> String {
+        let mut s = format!("{tag} K={}", self.k);
+        for ks in 0..NKS {
+            s.push_str(&format!(" M{ks}={} G{ks}={} Q{ks}={}", self.m[ks], self.g[ks], self.q[ks]));
+        }
+        s
+    }
+}
+
+// ------------------------------------------------------------------ backends
+
+enum Store {
+    Mem(MemStore),
+    Sql(SqliteStorage),
+    Lmdb(LmdbStorage),
+}
+
+macro_rules! on {
+    ($st:expr, $s:ident => $e:expr) => {
+        match $st {
+            Store::Mem($s) => $e.map_err(|_| ()),
+            Store::Sql($s) => $e.map_err(|_| ()),
+            Store::Lmdb($s) => $e.map_err(|_| ()),
+        }
+    };
+}
+
+#[derive(Default)]
+struct CloseStats {
+    sqlite_close_seen: u64,
+    sqlite_close_timeout: u64,
+    lmdb_close_seen: u64,
+    lmdb_close_timeout: u64,
+}
+
+async fn open_store(backend: &str, dir: &Path) -> Result<Store, String> {
+    match backend {
+        "mem" => Ok(Store::Mem(MemStore::default())),
+        "sqlm" => SqliteStorage::open_in_memory().await.map(Store::Sql).map_err(|e| e.to_string()),
+        "sqlf" => SqliteStorage::open(dir.join("data.db")).await.map(Store::Sql).map_err(|e| e.to_string()),
+        _ => LmdbStorage::open(dir.join("lmdb")).await.map(Store::Lmdb).map_err(|e| e.to_string()),
+    }
+}
+
+/// Really closes the database: drops the handle and waits until the background
+/// thread has closed the connection / environment.
+fn close_store(st: Store, dir: &Path, cs: &mut CloseStats) {
+    match st {
+        Store::Mem(_) => {},
+        Store::Sql(s) => {
+            let shm = dir.join("data.db-shm");
+            let wal = dir.join("data.db-wal");
+            let file = dir.join("data.db").exists();
+            drop(s);
+            if file {
+                // SQLite removes the -wal/-shm files when the last connection closes
+                let t0 = Instant::now();
+                while (shm.exists() || wal.exists()) && t0.elapsed() < Duration::from_secs(3) {
+                    std::thread::sleep(Duration::from_micros(200));
+                }
+                if shm.exists() || wal.exists() {
+                    cs.sqlite_close_timeout += 1;
+                } else {
+                    cs.sqlite_close_seen += 1;
+                }
+            }
+        },
+        Store::Lmdb(s) => {
+            // heed keeps one environment per path and process; `prepare_for_closing`
+            // lets us wait for the real mdb_env_close before opening the path again.
+            let ev = s.handle().env().clone().prepare_for_closing();
+            drop(s);
+            if ev.wait_timeout(Duration::from_secs(5)) {
+                cs.lmdb_close_seen += 1;
+            } else {
+                cs.lmdb_close_timeout += 1;
+            }
+        },
+    }
+}
+
+async fn apply(st: &Store, op: &Op) -> Result<(), ()> {
+    let ts = HLCTimestamp::from_u64;
+    match op {
+        Op::Put(k, id, t, p) => {
+            let doc = Document::new(*id, ts(*t), payload_bytes(p));
+            on!(st, s => s.put(KS_NAMES[*k], doc).await)
+        },
+        Op::MultiPut(k, docs) => {
+            let docs: Vec<Document> =
+                docs.iter().map(|(id, t, p)| Document::new(*id, ts(*t), payload_bytes(p))).collect();
+            on!(st, s => s.multi_put(KS_NAMES[*k], docs.into_iter()).await)
+        },
+        Op::Tomb(k, id, t) => on!(st, s => s.mark_as_tombstone(KS_NAMES[*k], *id, ts(*t)).await),
+        Op::MultiTomb(k, docs) => {
+            let docs: Vec<DocumentMetadata> = docs.iter().map(|(id, t)| DocumentMetadata::new(*id, ts(*t))).collect();
+            on!(st, s => s.mark_many_as_tombstone(KS_NAMES[*k], docs.into_iter()).await)
+        },
+        Op::Purge(k, ids) => on!(st, s => s.remove_tombstones(KS_NAMES[*k], ids.clone().into_iter()).await),
+        Op::Reopen => Ok(()),
+    }
+}
+
+struct Observed {
+    sec: Sections,
+    raw_list: Result<Vec<String>, ()>,
+    mget_in_request_order: bool,
+    problems: Vec<(&'static str, String)>,
+}
+
+fn fnv(b: &[u8]) -> u64 {
+    let mut h = 0xcbf2_9ce4_8422_2325u64;
+    for x in b {
+        h = (h ^ *x as u64).wrapping_mul(0x100_0000_01b3);
+    }
+    h
+}
+
+fn pay_token(table: &HashMap<Vec<u8>, String>, data: &[u8]) -> String {
+    match table.get(data) {
+        Some(t) => t.clone(),
+        None => format!("?{}x{:x}", data.len(), fnv(data)),
+    }
+}
+
+async fn observe(st: &Store, universe: &[u64], table: &HashMap<Vec<u8>, String>) -> Observed {
+    let mut o = Observed {
+        sec: Sections::default(),
+        raw_list: Err(()),
+        mget_in_request_order: true,
+        problems: Vec::new(),
+    };
+    // keyspace list first, before the per-keyspace observers name any keyspace
+    o.raw_list = on!(st, s => s.get_keyspace_list().await);
+    let mut metas: Vec<Result<Vec<(u64, u64, bool)>, ()>> = Vec::new();
+    for ks in 0..NKS {
+        let name = KS_NAMES[ks];
+        let meta: Result<Vec<(u64, u64, bool)>, ()> = on!(st, s => s
+            .iter_metadata(name)
+            .await
+            .map(|it| it.map(|(id, ts, t)| (id, ts.as_u64(), t)).collect::<Vec<_>>()));
+        o.sec.m[ks] = match &meta {
+            Err(()) => "err".into(),
+            Ok(rows) => {
+                let mut rows = rows.clone();
+                rows.sort();
+                let mut ids: Vec<u64> = rows.iter().map(|r| r.0).collect();
+                ids.dedup();
+                if ids.len() != rows.len() {
+                    o.problems.push(("metadata-duplicate-id", format!("ks{ks}")));
+                }
+                join(rows.iter().map(|(id, ts, t)| format!("{id:x}:{ts:x}:{}", *t as u8)).collect())
+            },
+        };
+        metas.push(meta);
+        let mut g = Vec::new();
+        for id in dedup_keep_order(universe) {
+            let r: Result<Option<Document>, ()> = on!(st, s => s.get(name, id).await);
+            g.push(match r {
+                Err(()) => format!("{id:x}:err"),
+                Ok(None) => format!("{id:x}:-"),
+                Ok(Some(d)) => {
+                    let p = pay_token(table, d.data());
+                    if d.id() == id {
+                        format!("{id:x}:{:x}:{p}", d.last_updated().as_u64())
+                    } else {
+                        format!("{id:x}:wrongid{:x}:{:x}:{p}", d.id(), d.last_updated().as_u64())
+                    }
+                },
+            });
+        }
+        o.sec.g[ks] = join(g);
+        let req: Vec<u64> = universe.to_vec();
+        let r: Result<Vec<Document>, ()> =
+            on!(st, s => s.multi_get(name, req.clone().into_iter()).await.map(|it| it.collect::<Vec<_>>()));
+        o.sec.q[ks] = match r {
+            Err(()) => "err".into(),
+            Ok(docs) => {
+                // informational: is the answer in request order (with the request's multiplicity)?
+                let ids: Vec<u64> = docs.iter().map(|d| d.id()).collect();
+                let live: BTreeSet<u64> = ids.iter().copied().collect();
+                let expect: Vec<u64> = req.iter().copied().filter(|i| live.contains(i)).collect();
+                if ids != expect {
+                    o.mget_in_request_order = false;
+                }
+                let set: BTreeSet<(u64, u64, String)> = docs
+                    .iter()
+                    .map(|d| (d.id(), d.last_updated().as_u64(), pay_token(table, d.data())))
+                    .collect();
+                join(set.iter().map(|(id, ts, p)| format!("{id:x}:{ts:x}:{p}")).collect())
+            },
+        };
+    }
+    // keyspace list, canonicalised modulo keyspaces without entries: keep the listed
+    // keyspaces whose own metadata is non-empty
+    o.sec.k = match &o.raw_list {
+        Err(()) => "err".into(),
+        Ok(list) => {
+            let mut out = BTreeSet::new();
+            let mut seen = BTreeSet::new();
+            for name in list {
+                if !seen.insert(name.clone()) {
+                    o.problems.push(("keyspace-list-duplicate", name.clone()));
+                }
+                match KS_NAMES.iter().position(|n| n == name) {
+                    None => {
+                        o.problems.push(("keyspace-list-unknown-name", name.clone()));
+                        out.insert(format!("?{}", hex_bytes(name.as_bytes())));
+                    },
+                    Some(ks) => {
+                        if matches!(&metas[ks], Ok(rows) if !rows.is_empty()) {
+                            out.insert(format!("{ks:x}"));
+                        }
+                    },
+                }
+            }
+            join(out.into_iter().collect())
+        },
+    };
+    o
+}
+
+// ------------------------------------------------------------------ running a case
+
+#[derive(Default)]
+struct RunState {
+    steps: Vec<String>,
+    /// (class, number of ops of the case to keep, detail)
+    fails: Vec<(String, usize, String)>,
+    counters: BTreeMap<String, u64>,
+    close: CloseStats,
+    noncanonical: bool,
+}
+
+impl RunState {
+    fn fail(&mut self, backend: &str, class: &str, nops: usize, detail: String) {
+        // a case that stores a word whose fraction byte exceeds 249 (no clock produces one)
+        // is outside the stamps C17 quantifies over; SQLite keeps the Display text of a stamp
+        // and cannot return such a word unchanged: named class, not mixed with the others
+        let class = if self.noncanonical && backend.starts_with("sql") {
+            format!("{backend}-noncanonical-stamp")
+        } else {
+            format!("{backend}-{class}")
+        };
+        if !self.fails.iter().any(|f| f.0 == class) {
+            self.fails.push((class, nops, detail));
+        }
+    }
+    fn hit(&mut self, k: &str) {
+        *self.counters.entry(k.to_string()).or_insert(0) += 1;
+    }
+}
+
+fn compare(
+    rs: &mut RunState,
+    backend: &str,
+    nops: usize,
+    want: &Sections,
+    got: &Observed,
+    prev: Option<&Sections>,
+    op: Option<&Op>,
+) {
+    if want.k != got.sec.k {
+        rs.fail(backend, "keyspace-list", nops, format!("want K={} got K={} raw={:?}", want.k, got.sec.k, got.raw_list));
+    }
+    for ks in 0..NKS {
+        if want.m[ks] != got.sec.m[ks] {
+            rs.fail(backend, "metadata", nops, format!("ks{ks} want {} got {}", want.m[ks], got.sec.m[ks]));
+        }
+        if want.g[ks] != got.sec.g[ks] {
+            rs.fail(backend, "get", nops, format!("ks{ks} want {} got {}", want.g[ks], got.sec.g[ks]));
+        }
+        if want.q[ks] != got.sec.q[ks] {
+            rs.fail(backend, "multi_get", nops, format!("ks{ks} want {} got {}", want.q[ks], got.sec.q[ks]));
+        }
+    }
+    for (c, d) in &got.problems {
+        rs.fail(backend, c, nops, d.clone());
+    }
+    // implementation-only clauses: frame rule and reopen, against the backend's own
+    // previous observation
+    if let (Some(prev), Some(op)) = (prev, op) {
+        for ks in 0..NKS {
+            if op.ks() == Some(ks) {
+                continue;
+            }
+            if prev.m[ks] != got.sec.m[ks] || prev.g[ks] != got.sec.g[ks] || prev.q[ks] != got.sec.q[ks] {
+                let class = if matches!(op, Op::Reopen) { "reopen-changed-observation" } else { "frame" };
+                rs.fail(backend, class, nops, format!("ks{ks} before M={} G={} after M={} G={}", prev.m[ks], prev.g[ks], got.sec.m[ks], got.sec.g[ks]));
+            }
+        }
+        if matches!(op, Op::Reopen) && prev.k != got.sec.k {
+            rs.fail(backend, "reopen-changed-observation", nops, format!("K before {} after {}", prev.k, got.sec.k));
+        }
+    }
+}
+
+async fn run_case(case: Case, dir: PathBuf, state: Arc<Mutex<RunState>>) {
+    let b = case.backend.clone();
+    let table = case.payload_table();
+    let persistent = b == "sqlf" || b == "lmdb";
+    let mut reference = Reference::default();
+    let mut st = match open_store(&b, &dir).await {
+        Ok(s) => s,
+        Err(e) => {
+            let mut rs = state.lock().unwrap();
+            rs.steps.push("open-failed".into());
+            rs.fail(&b, "open-failed", 0, e);
+            return;
+        },
+    };
+    // a fresh database lists no keyspace at all
+    let fresh: Result<Vec<String>, ()> = on!(&st, s => s.get_keyspace_list().await);
+    if fresh != Ok(Vec::new()) {
+        state.lock().unwrap().fail(&b, "fresh-store-lists-keyspaces", 0, format!("{fresh:?}"));
+    }
+    let obs = observe(&st, &case.universe, &table).await;
+    let mut prev = obs.sec.clone();
+    {
+        let mut rs = state.lock().unwrap();
+        rs.steps.push(obs.sec.text("init"));
+        compare(&mut rs, &b, 0, &reference.sections(&case.universe), &obs, None, None);
+    }
+    for (i, op) in case.ops.iter().enumerate() {
+        let nops = i + 1;
+        if !reference.allowed(op) {
+            // not a call the contract allows: the case is malformed, stop here
+            state.lock().unwrap().steps.push("na".into());
+            return;
+        }
+        // mark the step as started so that a panic is attributed to it
+        state.lock().unwrap().steps.push("panic".to_string());
+        let res = if matches!(op, Op::Reopen) {
+            if persistent {
+                let mut cs = CloseStats::default();
+                close_store(st, &dir, &mut cs);
+                {
+                    let mut rs = state.lock().unwrap();
+                    rs.close.sqlite_close_seen += cs.sqlite_close_seen;
+                    rs.close.sqlite_close_timeout += cs.sqlite_close_timeout;
+                    rs.close.lmdb_close_seen += cs.lmdb_close_seen;
+                    rs.close.lmdb_close_timeout += cs.lmdb_close_timeout;
+                }
+                match open_store(&b, &dir).await {
+                    Ok(s) => {
+                        st = s;
+                        Ok(())
+                    },
+                    Err(e) => {
+                        let mut rs = state.lock().unwrap();
+                        rs.steps.pop();
+                        rs.steps.push("reopen-failed".into());
+                        rs.fail(&b, "reopen-failed", nops, e);
+                        return;
+                    },
+                }
+            } else {
+                Ok(())
+            }
+        } else {
+            apply(&st, op).await
+        };
+        reference.apply(op);
+        let obs = observe(&st, &case.universe, &table).await;
+        let mut rs = state.lock().unwrap();
+        rs.steps.pop();
+        let tag = if res.is_ok() { "ok" } else { "err" };
+        rs.steps.push(obs.sec.text(tag));
+        if res.is_err() {
+            rs.fail(&b, "call-error", nops, op.show());
+        }
+        compare(&mut rs, &b, nops, &reference.sections(&case.universe), &obs, Some(&prev), Some(op));
+        if !obs.mget_in_request_order {
+            rs.hit("multi_get_not_in_request_order");
+        }
+        if let Ok(list) = &obs.raw_list {
+            let listed_empty = list
+                .iter()
+                .filter(|n| KS_NAMES.iter().position(|x| x == *n).map(|k| obs.sec.m[k] == "-").unwrap_or(false))
+                .count();
+            if listed_empty > 0 {
+                rs.hit(&format!("{b}_lists_keyspace_without_entries"));
+            }
+        }
+        prev = obs.sec.clone();
+    }
+    if persistent {
+        let mut cs = CloseStats::default();
+        close_store(st, &dir, &mut cs);
+    }
+}
+
+// ------------------------------------------------------------------ generators
+
+fn stamp(sec: u64, ms: u32, cnt: u16, node: u8) -> u64 {
+    HLCTimestamp::new(Duration::new(sec, ms * 1_000_000), cnt, node).as_u64()
+}
+
+fn random_stamp(r: &mut Rng) -> u64 {
+    let sec = match r.below(6) {
+        0 => 0,
+        1 => 1,
+        2 => 1 << 31,
+        3 => (1u64 << 32) - 1,
+        4 => (1u64 << 32) - 2,
+        _ => r.below(1 << 32),
+    };
+    let ms = match r.below(4) {
+        0 => 0,
+        1 => 996 + r.below(4) as u32, // fraction 249
+        2 => 4,
+        _ => r.below(1000) as u32,
+    };
+    let cnt = match r.below(4) {
+        0 => 0,
+        1 => 65535,
+        2 => 1,
+        _ => r.below(65536) as u16,
+    };
+    let node = match r.below(4) {
+        0 => 0,
+        1 => 255,
+        _ => r.below(256) as u8,
+    };
+    stamp(sec, ms, cnt, node)
+}
+
+fn random_id(r: &mut Rng, extra: &[u64]) -> u64 {
+    if !extra.is_empty() && r.chance(1, 8) {
+        *r.pick(extra)
+    } else {
+        *r.pick(&BOUNDARY_IDS)
+    }
+}
+
+fn random_payload(r: &mut Rng, thorough: bool, big_left: &mut u32) -> String {
+    match r.below(10) {
+        0 | 1 | 2 => "e".into(),
+        3 | 4 => format!("b{:02x}", [0u64, 0xff, 0x27, r.below(256)][r.below(4) as usize]),
+        5 | 6 => {
+            let n = 2 + r.below(14) as usize;
+            let bytes: Vec<u8> = (0..n).map(|_| r.below(256) as u8).collect();
+            format!("s{}", hex_bytes(&bytes))
+        },
+        7 | 8 => format!("k{:x}", r.below(4)),
+        _ => {
+            if thorough && *big_left > 0 {
+                *big_left -= 1;
+                format!("m{:x}", r.below(3))
+            } else {
+                format!("k{:x}", r.below(4))
+            }
+        },
+    }
+}
+
+/// One random allowed call sequence.  `tomb_first`: keyspace 2 is first touched by a tombstone.
+fn random_ops(r: &mut Rng, thorough: bool, stats: &mut hxcommon::Stats) -> (Vec<u64>, Vec<Op>) {
+    random_ops_with(r, thorough, stats, false)
+}
+
+/// `words`: stamps are arbitrary u64 words (`HLCTimestamp::from_u64`), half of them with a
+/// fraction byte above 249 — not stamps any clock produces; optional stream `noncanonical=N`.
+fn random_ops_with(r: &mut Rng, thorough: bool, stats: &mut hxcommon::Stats, words: bool) -> (Vec<u64>, Vec<Op>) {
+    let random_stamp = |r: &mut Rng| -> u64 {
+        if !words {
+            return random_stamp(r);
+        }
+        let w = r.next();
+        if r.chance(1, 2) {
+            (w & !(0xffu64 << 24)) | ((250 + r.below(6)) << 24)
+        } else {
+            w
+        }
+    };
+    let len = 3 + r.below(if thorough { 22 } else { 12 }) as usize;
+    let extra: Vec<u64> = (0..2).map(|_| r.next()).collect();
+    let tomb_first = r.chance(1, 2);
+    let mut touched2 = false;
+    let mut reference = Reference::default();
+    let mut big_left = 3u32; // keeps every case far below LMDB's 10 MiB map
+    let mut ops = Vec::new();
+    while ops.len() < len {
+        let mut ks = r.below(NKS as u64) as usize;
+        if ks == 2 && !tomb_first && !touched2 && r.chance(1, 2) {
+            ks = 0;
+        }
+        let first_touch_tomb = ks == 2 && tomb_first && !touched2;
+        let kind = if first_touch_tomb { 3 + r.below(2) } else { r.below(11) };
+        let op = match kind {
+            0 | 1 | 2 => Op::Put(ks, random_id(r, &extra), random_stamp(r), random_payload(r, thorough, &mut big_left)),
+            3 => Op::Tomb(ks, random_id(r, &extra), random_stamp(r)),
+            4 => {
+                let n = if first_touch_tomb { 1 + r.below(3) } else { r.below(4) };
+                Op::MultiTomb(ks, (0..n).map(|_| (random_id(r, &extra), random_stamp(r))).collect())
+            },
+            5 | 6 => {
+                let n = r.below(5);
+                Op::MultiPut(
+                    ks,
+                    (0..n)
+                        .map(|_| (random_id(r, &extra), random_stamp(r), random_payload(r, thorough, &mut big_left)))
+                        .collect(),
+                )
+            },
+            7 | 8 => {
+                // purge: tombstones and absent ids of this keyspace (what the contract allows)
+                let mut cand: Vec<u64> = BOUNDARY_IDS
+                    .iter()
+                    .chain(extra.iter())
+                    .copied()
+                    .filter(|id| !matches!(reference.m.get(&(ks, *id)), Some((_, Some(_)))))
+                    .collect();
+                r.shuffle(&mut cand);
+                cand.truncate(r.below(4) as usize);
+                if r.chance(1, 6) && !cand.is_empty() {
+                    let d = cand[0];
+                    cand.push(d); // the same id twice in one request
+                }
+                Op::Purge(ks, cand)
+            },
+            9 => Op::Reopen,
+            _ => Op::Tomb(ks, random_id(r, &extra), random_stamp(r)),
+        };
+        if !reference.allowed(&op) {
+            continue;
+        }
+        if op.ks() == Some(2) {
+            touched2 = true;
+        }
+        stats.hit(match &op {
+            Op::Put(..) => "op_put",
+            Op::MultiPut(..) => "op_multi_put",
+            Op::Tomb(..) => "op_tombstone",
+            Op::MultiTomb(..) => "op_multi_tombstone",
+            Op::Purge(..) => "op_remove_tombstones",
+            Op::Reopen => "op_reopen",
+        });
+        if first_touch_tomb {
+            stats.hit("keyspace_first_touched_by_tombstone");
+        }
+        reference.apply(&op);
+        ops.push(op);
+    }
+    // the multi_get request: the boundary ids, the case's extra ids, shuffled, one of them twice
+    let mut universe: Vec<u64> = BOUNDARY_IDS.iter().chain(extra.iter()).copied().collect();
+    r.shuffle(&mut universe);
+    let d = universe[r.below(universe.len() as u64) as usize];
+    universe.push(d);
+    (universe, ops)
+}
+
+/// Bounded-exhaustive: every allowed sequence of length <= `maxlen` over the alphabet
+/// { put, tombstone, remove_tombstones on one id; bulk put / tombstone / remove on both ids;
+///   reopen } x keyspaces {0, 2} x ids {0, 2^63}.
+fn exhaustive_sequences(maxlen: usize) -> Vec<Vec<Op>> {
+    let ids = [0u64, 1 << 63];
+    let kss = [0usize, 2];
+    // stamps by position: high, low, middle (the store must not order by stamp)
+    let stamps = [stamp((1 << 32) - 1, 996, 65535, 255), stamp(0, 0, 0, 0), stamp(1, 500, 1, 7), stamp(2, 0, 0, 1)];
+    let pays = ["e", "b00", "k1", "s00ff27"];
+    let alphabet = |pos: usize| -> Vec<Op> {
+        let t = stamps[pos % stamps.len()];
+        let p = pays[pos % pays.len()].to_string();
+        let mut v = Vec::new();
+        for ks in kss {
+            for id in ids {
+                v.push(Op::Put(ks, id, t, p.clone()));
+                v.push(Op::Tomb(ks, id, t));
+                v.push(Op::Purge(ks, vec![id]));
+            }
+            v.push(Op::MultiPut(ks, vec![(ids[0], t, p.clone()), (ids[1], t, "e".into())]));
+            v.push(Op::MultiTomb(ks, vec![(ids[1], t), (ids[0], t)]));
+            v.push(Op::Purge(ks, vec![ids[0], ids[1]]));
+        }
+        v.push(Op::Reopen);
+        v
+    };
+    let mut out: Vec<Vec<Op>> = Vec::new();
+    let mut frontier: Vec<(Vec<Op>, Reference)> = vec![(Vec::new(), Reference::default())];
+    for pos in 0..maxlen {
+        let mut next = Vec::new();
+        for (seq, rf) in &frontier {
+            for op in alphabet(pos) {
+                if !rf.allowed(&op) {
+                    continue;
+                }
+                // a leading reopen of an empty store and two reopens in a row add nothing
+                if matches!(op, Op::Reopen) && matches!(seq.last(), None | Some(Op::Reopen)) {
+                    continue;
+                }
+                let mut s2 = seq.clone();
+                s2.push(op.clone());
+                let mut r2 = rf.clone();
+                r2.apply(&op);
+                out.push(s2.clone());
+                next.push((s2, r2));
+            }
+        }
+        frontier = next;
+    }
+    out
+}
+
+// ------------------------------------------------------------------ main
+
+fn main() {
+    let args = Args::parse();
+    quiet_panics();
+    let mut w = CaseWriter::new(&args.dir, "store");
+    let scratch = match args.extra.get("scratch") {
+        Some(p) => PathBuf::from(p),
+        None => args
+            .dir
+            .parent()
+            .unwrap_or(Path::new("."))
+            .join(format!("scratch-{}", std::process::id())),
+    };
+    let _ = std::fs::remove_dir_all(&scratch);
+    std::fs::create_dir_all(&scratch).unwrap();
+
+    // ---- the cases
+    let mut cases: Vec<Case> = Vec::new();
+    let mut bad_lines: Vec<String> = Vec::new();
+    let mut n_exhaustive = 0u64;
+    if let Some(path) = &args.replay {
+        for line in std::fs::read_to_string(path).unwrap().lines() {
+            if line.trim().is_empty() {
+                continue;
+            }
+            match Case::parse(line) {
+                Some(c) => cases.push(c),
+                None => bad_lines.push(line.to_string()),
+            }
+        }
+    } else {
+        let mut rng = Rng::new(args.seed);
+        let maxlen = args.get_u64("exhaustive_len", if args.thorough() { 3 } else { 2 }) as usize;
+        let seqs = exhaustive_sequences(maxlen);
+        let universe = vec![1u64 << 63, 0, 7, 0];
+        for ops in &seqs {
+            let has_reopen = ops.iter().any(|o| matches!(o, Op::Reopen));
+            for b in BACKENDS {
+                if has_reopen && (b == "mem" || b == "sqlm") {
+                    continue; // reopen is only meaningful for the persistent backends
+                }
+                cases.push(Case { backend: b.to_string(), universe: universe.clone(), ops: ops.clone() });
+                n_exhaustive += 1;
+            }
+        }
+        w.stats.add("exhaustive_sequences", seqs.len() as u64);
+        // length-3 sequences sampled in the quick tier (all of them run in the thorough tier)
+        if !args.thorough() {
+            let mut seqs3: Vec<Vec<Op>> = exhaustive_sequences(3).into_iter().filter(|s| s.len() == 3).collect();
+            rng.shuffle(&mut seqs3);
+            let n3 = args.get_u64("sample_len3", 150) as usize;
+            for ops in seqs3.into_iter().take(n3) {
+                let has_reopen = ops.iter().any(|o| matches!(o, Op::Reopen));
+                for b in BACKENDS {
+                    if has_reopen && (b == "mem" || b == "sqlm") {
+                        continue;
+                    }
+                    cases.push(Case { backend: b.to_string(), universe: universe.clone(), ops: ops.clone() });
+                }
+                w.stats.hit("sampled_len3_sequences");
+            }
+        }
+        let nrandom = args.get_u64("random", if args.thorough() { 4000 } else { 250 });
+        for _ in 0..nrandom {
+            let (universe, ops) = random_ops(&mut rng, args.thorough(), &mut w.stats);
+            for b in BACKENDS {
+                cases.push(Case { backend: b.to_string(), universe: universe.clone(), ops: ops.clone() });
+            }
+            w.stats.hit("random_sequences");
+        }
+        // optional (off by default): arbitrary words as stamps, see `noncanonical_stamp`
+        for _ in 0..args.get_u64("noncanonical", 0) {
+            let (universe, ops) = random_ops_with(&mut rng, false, &mut w.stats, true);
+            for b in BACKENDS {
+                cases.push(Case { backend: b.to_string(), universe: universe.clone(), ops: ops.clone() });
+            }
+            w.stats.hit("noncanonical_stamp_sequences");
+        }
+    }
+
+    // ---- run them
+    let rt = tokio::runtime::Builder::new_current_thread().enable_all().build().unwrap();
+    let local = tokio::task::LocalSet::new();
+    let mut close_total = CloseStats::default();
+    for line in &bad_lines {
+        w.case(line, "?bad-case");
+        w.fail("bad-case-line", line, "cannot parse");
+    }
+    let t0 = Instant::now();
+    for (n, case) in cases.iter().enumerate() {
+        let dir = scratch.join(format!("c{n}"));
+        std::fs::create_dir_all(&dir).unwrap();
+        let state = Arc::new(Mutex::new(RunState { noncanonical: case.has_noncanonical_stamp(), ..RunState::default() }));
+        let fut = run_case(case.clone(), dir.clone(), state.clone());
+        let joined = local.block_on(&rt, async move { tokio::task::spawn_local(fut).await });
+        let mut rs = match state.lock() {
+            Ok(g) => g,
+            Err(p) => p.into_inner(),
+        };
+        if let Err(e) = joined {
+            let nops = rs.steps.len().saturating_sub(1);
+            let what = if e.is_panic() { "panic" } else { "cancelled" };
+            let last = rs_last(&rs.steps);
+            rs.fail(&case.backend, what, nops, last);
+            w.stats.hit("case_panicked");
+        }
+        let line = case.show();
+        if rs.noncanonical && case.backend.starts_with("sql") {
+            // known class (see RunState::fail): evaluated by the oracle only; the line is kept
+            // out of the model comparison so that the class suppresses nothing else
+            w.stats.hit("sqlite_noncanonical_stamp_cases_oracle_only");
+        } else {
+            w.case(&line, &rs.steps.join(" | "));
+        }
+        for (class, nops, detail) in &rs.fails {
+            w.fail(class, &case.show_prefix(*nops), detail);
+        }
+        for (k, v) in &rs.counters {
+            w.stats.add(k, *v);
+        }
+        w.stats.hit(&format!("cases_{}", case.backend));
+        w.stats.add("steps", case.ops.len() as u64);
+        close_total.sqlite_close_seen += rs.close.sqlite_close_seen;
+        close_total.sqlite_close_timeout += rs.close.sqlite_close_timeout;
+        close_total.lmdb_close_seen += rs.close.lmdb_close_seen;
+        close_total.lmdb_close_timeout += rs.close.lmdb_close_timeout;
+        drop(rs);
+        let _ = std::fs::remove_dir_all(&dir);
+    }
+    drop(local);
+    drop(rt);
+    let _ = std::fs::remove_dir_all(&scratch);
+    w.stats.add("reopen_sqlite_file_closed_and_reopened", close_total.sqlite_close_seen);
+    w.stats.add("reopen_sqlite_close_not_observed", close_total.sqlite_close_timeout);
+    w.stats.add("reopen_lmdb_env_closed_and_reopened", close_total.lmdb_close_seen);
+    w.stats.add("reopen_lmdb_close_not_observed", close_total.lmdb_close_timeout);
+    let ms = t0.elapsed().as_millis();
+    w.finish(&[("exhaustive_cases", n_exhaustive.to_string()), ("run_ms", ms.to_string())]);
+}
+
+fn rs_last(steps: &[String]) -> String {
+    steps.last().cloned().unwrap_or_default()
+}
